@@ -8,28 +8,69 @@
                                         obs2 = decimal_places(d, first result), or (1 0)
    (3 key argtype obs)                  type of CONVERSION[key](arg); obs = (0 typecode) | (1 exn)
 
+   and the same three calls on an argument of any class (Spec/ConversionArg.v [pyval]):
+
+   (4 n arg intobs obs)                 digit_string(n, arg); intobs = int(arg) alone: (0 z) | (1 exn);
+                                        obs = (0 codepoints) | (1 exn)
+   (5 d arg decobs obs)                 decimal_places(d, arg); decobs = Decimal(arg) alone: (0 value) | (1 exn);
+                                        obs = (0 value) | (1 exn)
+   (6 key arg obs vobs)                 CONVERSION[key](arg); obs = (0 typecode) | (1 exn); vobs = the returned
+                                        value, (9) when it is of no described class or nothing was returned
+
+   An integer z is an atom, or (sign limb ... limb) in base 10^4000 when it has more than 4000 digits.
+   arg and value are: (0) None, (1 b) bool, (2 z) int, (3 (sign coef exp)) finite float, (4 k) float nan / inf /
+   -inf for k = 0 / 1 / 2, (5 codepoints) str, (6 (sign coef exp)) finite Decimal, (7 k) Decimal NaN / sNaN /
+   Infinity / -Infinity for k = 0 .. 3, (8 num den) Fraction.
+
    good  = the property predicate (Spec/Conversion.v) on the observation, [true] outside the
            property's domain;  agree = observation equals the model's output. *)
 From Coq Require Import ZArith NArith List Bool.
 Import ListNotations.
-Require Import SR.Base.Sx SR.Base.Res SR.Spec.Conversion SR.Model.Conversion.
+Require Import SR.Base.Sx SR.Base.Res SR.Spec.Conversion SR.Spec.ConversionArg SR.Model.Conversion SR.Model.ConversionArg.
 Open Scope Z_scope.
 
 Definition list_N_eqb (a b : list N) : bool :=
   (length a =? length b)%nat && forallb (fun p => N.eqb (fst p) (snd p)) (combine a b).
 
+(* an integer of the wire: an atom, or (sign limb ... limb), the digits in base 10^4000, most significant first
+   (integers of more than 4300 digits cannot be written or read in one piece by the harness's CPython) *)
+Definition limb_base : Z := 10 ^ 4000.
+Definition as_big (s : sx) : Z :=
+  match s with
+  | A z => z
+  | L [] => 0
+  | L (sg :: limbs) =>
+      let m := fold_left (fun acc l => acc * limb_base + as_Z l) limbs 0 in
+      if as_bool sg then - m else m
+  end.
+
+Fixpoint limbs_of (fuel : nat) (m : Z) (acc : list sx) : list sx :=
+  match fuel with
+  | O => acc
+  | S f => if m <? limb_base then A m :: acc else limbs_of f (m / limb_base) (A (m mod limb_base) :: acc)
+  end.
+
+Definition of_big (z : Z) : sx :=
+  if Z.abs z <? limb_base then A z
+  else L (of_bool (z <? 0) :: limbs_of (S (Z.to_nat (Z.log2 (Z.abs z) / 13000))) (Z.abs z) []).
+
 Definition dec_of_sx (s : sx) : dec :=
-  mkdec (as_bool (nth_sx 0 s)) (as_N (nth_sx 1 s)) (as_Z (nth_sx 2 s)).
+  mkdec (as_bool (nth_sx 0 s)) (Z.to_N (as_big (nth_sx 1 s))) (as_Z (nth_sx 2 s)).
 
 Definition sx_of_dec (x : dec) : sx :=
-  L [of_bool (neg x); of_N (coef x); A (dexp x)].
+  L [of_bool (neg x); of_big (Z.of_N (coef x)); A (dexp x)].
 
 Definition obs_of {T} (f : sx -> T) (o : sx) : res T :=
   if as_Z (nth_sx 0 o) =? 0 then Ok (f (nth_sx 1 o))
   else if as_Z (nth_sx 1 o) =? exn_code ValueError then Err ValueError
+  else if as_Z (nth_sx 1 o) =? exn_code TypeError then Err TypeError
   else if as_Z (nth_sx 1 o) =? exn_code DecimalInvalid then Err DecimalInvalid
   else if as_Z (nth_sx 1 o) =? exn_code KeyError then Err KeyError
   else Err OtherError.
+
+(* the verdict; the detail (which may be long to print) is only built when the case does not pass *)
+Definition verdict_lazy (good agree : bool) (branch : Z) (detail : unit -> sx) : sx :=
+  if good && agree then L [A 0; A branch] else verdict None good agree branch (detail tt).
 
 Definition res_eqb {T} (eq : T -> T -> bool) (a b : res T) : bool :=
   match a, b with
@@ -66,7 +107,9 @@ Definition judge_places (c : sx) : sx :=
   let obs := obs_of dec_of_sx (nth_sx 4 c) in
   let obs2 := obs_of dec_of_sx (nth_sx 5 c) in
   let m := decimal_places d x in
-  let in_domain := (0 <=? d) && (d <=? - etiny) && fitsb d x in
+  (* if-then-else, not &&: the cross-check evaluates this file by vm_compute, which is strict in both arguments of
+     andb, and [fits_ctx] of a digit count far outside the range writes out a power of ten of millions of digits *)
+  let in_domain := if (- emax <=? d) && (d <=? - etiny) then fits_ctx d x else false in
   let good :=
     if in_domain then
       match obs with
@@ -94,10 +137,152 @@ Definition judge_conversion (c : sx) : sx :=
   let agree := res_eqb Z.eqb obs m in
   verdict None good agree (30 + key) (L [sx_of_res A m]).
 
+(* ---- arguments of any class ---- *)
+Definition pyval_of_sx (s : sx) : option pyval :=
+  let a1 := nth_sx 1 s in
+  match as_Z (nth_sx 0 s) with
+  | 0 => Some PNone
+  | 1 => Some (PBool (as_bool a1))
+  | 2 => Some (PInt (as_big a1))
+  | 3 => Some (PFloat (dec_of_sx a1))
+  | 4 => if as_Z a1 =? 0 then Some PFloatNan else Some (PFloatInf (as_Z a1 =? 2))
+  | 5 => Some (PStr (as_Ns a1))
+  | 6 => Some (PDec (dec_of_sx a1))
+  | 7 => if as_Z a1 <? 2 then Some (PDecNan (as_Z a1 =? 1)) else Some (PDecInf (as_Z a1 =? 3))
+  | 8 => match as_big (nth_sx 2 s) with Z.pos d => Some (PFrac (as_big a1) d) | _ => None end
+  | _ => None
+  end.
+
+Definition sx_of_pyval (a : pyval) : sx :=
+  match a with
+  | PNone => L [A 0]
+  | PBool b => L [A 1; of_bool b]
+  | PInt z => L [A 2; of_big z]
+  | PFloat x => L [A 3; sx_of_dec x]
+  | PFloatNan => L [A 4; A 0]
+  | PFloatInf n => L [A 4; A (if n then 2 else 1)]
+  | PStr s => L [A 5; of_Ns s]
+  | PDec x => L [A 6; sx_of_dec x]
+  | PDecNan sg => L [A 7; A (if sg then 1 else 0)]
+  | PDecInf n => L [A 7; A (if n then 3 else 2)]
+  | PFrac n d => L [A 8; of_big n; of_big (Z.pos d)]
+  end.
+
+Definition pyval_eqb (a b : pyval) : bool :=
+  match a, b with
+  | PNone, PNone => true
+  | PBool x, PBool y => Bool.eqb x y
+  | PInt x, PInt y => x =? y
+  | PFloat x, PFloat y | PDec x, PDec y => dec_eqb x y
+  | PFloatNan, PFloatNan => true
+  | PFloatInf x, PFloatInf y | PDecInf x, PDecInf y | PDecNan x, PDecNan y => Bool.eqb x y
+  | PStr x, PStr y => list_N_eqb x y
+  | PFrac n d, PFrac m e => (n =? m) && (Z.pos d =? Z.pos e)
+  | _, _ => false
+  end.
+
+(* an observed value: a wire form that is no described value never equals a model value *)
+Definition obs_val (o : sx) : res (option pyval) := obs_of pyval_of_sx o.
+
+Definition optval_eqb (a : option pyval) (b : pyval) : bool :=
+  match a with Some x => pyval_eqb x b | None => false end.
+
+Definition class_tag (a : pyval) : Z := as_Z (nth_sx 0 (sx_of_pyval a)).
+
+(* ---- digit_string(n, arg) ---- *)
+Definition judge_digits_v (c : sx) : sx :=
+  match pyval_of_sx (nth_sx 2 c) with
+  | None => L [A 9; A 0]
+  | Some a =>
+      let n := as_nat (nth_sx 1 c) in
+      let intobs := obs_of as_big (nth_sx 3 c) in
+      let obs := obs_of as_Ns (nth_sx 4 c) in
+      let m := digit_string_v n a in
+      (* the property speaks of an integer arriving as an int (bool is one), a float or a decimal *)
+      let in_domain :=
+        match dec_of_val a with
+        | Some x =>
+            match integer_of x with
+            | Some v => if (1 <=? n)%nat && (n <=? 4300)%nat && (0 <=? v) && (v <? 10 ^ Z.of_nat n) then Some v else None
+            | None => None
+            end
+        | None => None
+        end in
+      let good :=
+        match in_domain with
+        | Some v => match obs with Ok s => digits_ok n v s | Err _ => false end
+        | None => true
+        end in
+      let agree := res_eqb list_N_eqb obs m && res_eqb Z.eqb intobs (int_of_val a) in
+      let branch := 40 + class_tag a + (match a, int_of_val a with PStr _, Err _ => 4 | _, _ => 0 end) in
+      verdict_lazy good agree branch (fun _ => L [sx_of_res of_Ns m; sx_of_res of_big (int_of_val a)])
+  end.
+
+(* ---- decimal_places(d, arg) ---- *)
+Definition judge_places_v (c : sx) : sx :=
+  match pyval_of_sx (nth_sx 2 c) with
+  | None => L [A 9; A 0]
+  | Some a =>
+      let d := as_Z (nth_sx 1 c) in
+      let decobs := obs_val (nth_sx 3 c) in
+      let obs := obs_val (nth_sx 4 c) in
+      let m := decimal_places_v d a in
+      let md := decimal_of_val a in
+      (* the value of the argument is what Decimal(arg) made of it in the implementation *)
+      let good :=
+        match decobs with
+        | Ok (Some (PDec x)) =>
+            if (if (- emax <=? d) && (d <=? - etiny) then fits_ctx d x else false) then
+              match obs with
+              | Ok (Some (PDec r)) => (dexp r =? - d) && closeb d x r
+              | _ => false
+              end
+            else true
+        | _ => true
+        end in
+      let same (o : res (option pyval)) (r : res pyval) :=
+        match o, r with
+        | Ok v, Ok w => optval_eqb v w
+        | Err e, Err f => exn_eqb e f
+        | _, _ => false
+        end in
+      let agree := same obs m && same decobs md in
+      let branch := 50 + class_tag a + (match a, md with PStr _, Err _ => 4 | _, _ => 0 end) in
+      verdict_lazy good agree branch (fun _ => L [sx_of_res sx_of_pyval m; sx_of_res sx_of_pyval md])
+  end.
+
+(* ---- CONVERSION[key](arg) ---- *)
+Definition judge_conversion_v (c : sx) : sx :=
+  match pyval_of_sx (nth_sx 2 c) with
+  | None => L [A 9; A 0]
+  | Some a =>
+      let key := as_Z (nth_sx 1 c) in
+      let obs := obs_of as_Z (nth_sx 3 c) in
+      let vobs := pyval_of_sx (nth_sx 4 c) in
+      let m := conversion_result key a in
+      let in_domain := existsb (Z.eqb key) vocabulary in
+      let good :=
+        if in_domain then
+          match obs with
+          | Ok t => t =? named_type key (type_of a)          (* a returned value has the named type *)
+          | Err _ => negb (must_return key a)                 (* and on a plain value something is returned *)
+          end
+        else true in
+      let agree :=
+        res_eqb Z.eqb obs m
+        && match conversion_value key a with Some v => optval_eqb vobs v | None => true end in
+      let branch := (match m with Ok _ => 60 | Err _ => 70 end) + key in
+      verdict_lazy good agree branch
+        (fun _ => L [sx_of_res A m; match conversion_value key a with Some v => sx_of_pyval v | None => L [A 9] end])
+  end.
+
 Definition judge (c : sx) : sx :=
   match as_Z (nth_sx 0 c) with
   | 1 => judge_digits c
   | 2 => judge_places c
   | 3 => judge_conversion c
+  | 4 => judge_digits_v c
+  | 5 => judge_places_v c
+  | 6 => judge_conversion_v c
   | _ => L [A 9; A 0]
   end.
